@@ -763,6 +763,10 @@ func (e *Env) call(x *ECall) TV {
 	if _, ok := e.File.Folds[x.Fn]; ok {
 		return TV{T: sx.App("fold_"+x.Fn, e.Tr(x.Args[0]).T), Ty: I}
 	}
+	if strings.HasPrefix(x.Fn, "empty_L_") { // an empty, non-nil list of the named list sort
+		ln := strings.TrimPrefix(x.Fn, "empty_")
+		return TV{T: sx.App("mk"+ln, sx.Bool(false), sx.Int(0), sx.Atom("arr0_"+ln)), Ty: Type{K: KList, Name: ln}}
+	}
 	switch {
 	case x.Fn == "len":
 		v := e.Tr(x.Args[0])
@@ -770,6 +774,20 @@ func (e *Env) call(x *ECall) TV {
 			return TV{T: sx.App(v.Ty.Name+"_len", v.T), Ty: I}
 		}
 		return TV{T: sx.App("str.len", toBytes(v)), Ty: I}
+	case x.Fn == "push":
+		// the list obtained by appending one element (what Go's append does to a non-byte slice)
+		l, el := e.Tr(x.Args[0]), e.Tr(x.Args[1])
+		if l.Ty.K != KList {
+			panic("push on a non-list")
+		}
+		et := e.Lists[l.Ty.Name]
+		n := sx.App(l.Ty.Name+"_len", l.T)
+		return TV{T: sx.App("mk"+l.Ty.Name, sx.Bool(false), sx.App("+", n, sx.Int(1)), sx.App("store", sx.App(l.Ty.Name+"_arr", l.T), n, coerce(el, et))), Ty: l.Ty}
+	case x.Fn == "list1":
+		// a one-element list of byte strings
+		NeedList(Type{K: KNB})
+		el := e.Tr(x.Args[0])
+		return TV{T: sx.App("mkL_NB", sx.Bool(false), sx.Int(1), sx.App("store", sx.Atom("arr0_L_NB"), sx.Int(0), coerce(el, Type{K: KNB}))), Ty: Type{K: KList, Name: "L_NB"}}
 	case x.Fn == "samesnap":
 		// the Find snapshots of two stores under one prefix coincide (count, keys in order, positions)
 		DeclareSnapshots()
